@@ -33,5 +33,10 @@ def gen(rng, tier):
         if len(ops) > 1:
             yield tab.line(ops)
 
+_gen0 = gen
+def gen(rng, tier):
+    yield from _gen0(rng, tier)
+    yield from reinit_histories(rng, 300 if tier == 'thorough' else 40)
+
 def nontrivial(c):
     return True
